@@ -666,7 +666,8 @@ impl Gen {
     }
 
     fn gen_keeper(&mut self, r: &mut Runner, rng: &mut Rng) -> Step {
-        if matches!(self.profile.prop.as_str(), "C04" | "C11" | "C05" | "C03") && rng.chance(1, 5) {
+        // (not in a seconds marathon: the tactic lets a funding period pass, which empties the 15-minute window)
+        if matches!(self.profile.prop.as_str(), "C04" | "C11" | "C05" | "C03") && self.profile.marathon != Some("seconds") && rng.chance(1, 5) {
             if let Some(st) = self.gen_funding_drain(r, rng) {
                 return st;
             }
